@@ -67,5 +67,5 @@ with open(os.path.join(V, "seeded", "RESULTS.md"), "w") as f:
     f.write("| id | change | needs to manifest | detected | signatures (first two) | wall s |\n|---|---|---|---|---|---|\n")
     for r in rows:
         f.write("| %s | %s | %s | %s | %s | %s |\n" % r)
-    f.write("\n%d of %d detected by the property's own quick check.\n" % (sum(1 for r in rows if r[3].startswith("yes")), len(rows)))
+    f.write("\n%d of %d detected (by the property's own quick check unless another check is named).\n" % (sum(1 for r in rows if r[3].startswith("yes")), len(rows)))
 print("collected", len(rows), "changes;", sum(1 for r in rows if r[3].startswith("yes")), "detected")
